@@ -1125,6 +1125,8 @@ class Explorer:
 		self.ip = mirx.Interp(self.prog.fns, {"Duplicate": ["Duplicate"]}, sym, table, resolve, max_steps=200000)
 		# `@next` inside synthetic_last: dispatch on the iterator type
 		table["@next"] = lambda ip, st, a: [(st, CallFn(self.prog.next_of(self.models.rd(ip, st, a[0])), [a[0]]))]
+		# `drop(place)` of a removal iterator inside the crate's own code (remove_unique): its Drop impl
+		table["@drop"] = lambda ip, st, v: self.prog.iters[v.ty]["drop"] if isinstance(v, Agg) and v.ty in self.prog.iters else None
 		self.ip.struct_fields = struct_fields(repo)
 		if self.ip.struct_fields.get("Object", [None])[0] != "entries":
 			raise MirError("struct Object: expected `entries` as the first field")
